@@ -216,10 +216,16 @@ package prolog
 //@ -- the producer goroutine (sequential view): starts the search only when the consumer asks for an answer, keeps the
 //@ -- error the search ends with for Err, and closes `next` when it is over so that Next can tell
 //@ func (*Interpreter).QueryContext$1
-//@   property C12 C13
+//@   property C12 C13 C04
 //@   nosafety
 //@   trusted-frame
 //@   bind fok, ferr = engine.(*Promise).Force#1
 //@   at-call engine.Call requires[the-search-starts-only-when-an-answer-is-asked-for] received(more)
 //@   ensures[next-is-closed-when-the-search-is-over] ghost("closed:next") == 1
 //@   ensures[the-error-the-search-ended-with-is-kept-for-err] called(ferr) && ferr != nil ==> sols.err == ferr
+//@ -- C04PANIC-BEGIN QueryContext$1
+//@   bind cp = engine.Call#1
+//@   at-call engine.Call requires[the-query-s-goal-is-called-on-this-interpreter-in-the-query-s-environment] a0 == &i.VM && a1 == t && a3 == env
+//@   at-call engine.(*Promise).Force requires[what-is-forced-is-the-promise-of-that-call-under-the-query-s-context] called(cp) && a0 == cp && a1 == ctx
+//@   ensures[a-search-that-ended-without-an-error-records-none] called(ferr) && ferr == nil ==> sols.err == old(sols.err)
+//@ -- C04PANIC-END QueryContext$1
